@@ -23,6 +23,8 @@ THEOREMS = [
 GENERATED_OBLIGATIONS = ["Generated.genWrapper = Gen.C15.assumedWrapper (E15: shape of the wrapper loop; Gen.keepsReturn follows its `stop` field)"]
 RULE = ("bodies: random well-bracketed instruction lists (enter/exit of own actions spanning yields, log=observe current_action, "
         "yield v / yield last-received, try/catch(Thrown | bare), raise, return v, resume of a higher-numbered generator with send/throw/close); "
+        "values (sent, yielded, returned) come from a pool compared by identity: None, small ints, a tuple, exception instances "
+        "(also BaseException ones and the object used by throw) and an exception class used as plain data; "
         "1-4 generators, the script interleaves resumptions (send None/value, throw, close) with the driver entering/leaving up to 3 "
         "surrounding actions; non-trivial = some generator is resumed from >= 2 different driver actions and observes its context; "
         "distinct by canonical hash")
@@ -49,8 +51,7 @@ def gen_block(rng, i, ngen, depth, ctr, budget, allow_ret_val):
         budget[0] -= 1
         r = rng.random()
         if r < 0.22:
-            v = rng.choice([None, rng.randint(0, 9)])
-            out.append(["yield", v])
+            out.append(["yield", rand_val(rng, 0.3)])
         elif r < 0.30:
             out.append(["yieldLast"])
         elif r < 0.46:
@@ -76,7 +77,7 @@ def gen_block(rng, i, ngen, depth, ctr, budget, allow_ret_val):
         elif r < 0.82:
             out.append(["exit"])
         elif r < 0.87:
-            out.append(["ret", rng.choice([None, rng.randint(0, 9)]) if allow_ret_val else None])
+            out.append(["ret", rand_val(rng, 0.4) if allow_ret_val else None])
         elif i + 1 < ngen:
             j = rng.randint(i + 1, ngen - 1)
             out.append(["resume", j, gen_inp(rng, 0.7)])
@@ -95,7 +96,7 @@ def gen_inp(rng, p_none):
         return ["close"]
     if rng.random() < p_none:
         return ["send", None]
-    return ["send", rng.randint(0, 9)]
+    return ["send", rand_val(rng, 0.0)]
 
 
 def gen_case(rng, big):
@@ -109,7 +110,7 @@ def gen_case(rng, big):
         while budget[0] > 6:
             code += gen_block(rng, i, ngen, 0, ctr, budget, family == "ret-val")
         if rng.random() < 0.5:
-            code.append(["ret", rng.choice([None, rng.randint(0, 9)]) if family == "ret-val" else None])
+            code.append(["ret", rand_val(rng, 0.4) if family == "ret-val" else None])
         gens.append(code)
     script = []
     started = set()
@@ -137,6 +138,48 @@ class Thrown(Exception):
 
 class Env(object):
     pass
+
+
+# Values that cross the wrapper are opaque to the model (a Nat id); on the real side ids 0-9 are the ints
+# themselves and ids >= 10 are objects compared BY IDENTITY, among them exception instances and classes used
+# as plain data (a decorated generator must hand them over like any other value).
+SPECIAL_VALUES = [10, 11, 12, 13, 14, 15, 16]
+
+
+def make_pool(env):
+    return {10: env.E[0],                       # the very object that `throw` uses, sent as data
+            11: ValueError("data"),             # an exception instance as data
+            12: KeyError,                       # an exception class as data
+            13: (1, "t"),                       # a tuple
+            14: GeneratorExit("data"),          # BaseException instances as data
+            15: StopIteration(5),
+            16: (ValueError, ValueError("x"), None)}   # looks like exc_info()
+
+
+def to_val(env, v):
+    if v is None or v < 10:
+        return v
+    return env.V[v]
+
+
+def from_val(env, obj):
+    if obj is None:
+        return None
+    for k, o in env.V.items():
+        if o is obj:
+            return k
+    if isinstance(obj, int) and not isinstance(obj, bool) and 0 <= obj < 10:
+        return obj
+    return "foreign:%s" % (repr(obj)[:60],)
+
+
+def rand_val(rng, p_none=0.3):
+    r = rng.random()
+    if r < p_none:
+        return None
+    if r < p_none + 0.3:
+        return rng.choice(SPECIAL_VALUES)
+    return rng.randint(0, 9)
 
 
 def exc_name(env, e):
@@ -168,15 +211,15 @@ def do_resume(env, g, inp):
     """resume generator object g; returns (out-json, exception object or None)"""
     try:
         if inp[0] == "send":
-            v = g.send(inp[1])
+            v = g.send(to_val(env, inp[1]))
         elif inp[0] == "throw":
             v = g.throw(env.E[inp[1]])
         else:
             r = g.close()
-            return {"r": r}, None
-        return {"y": v}, None
+            return {"r": from_val(env, r)}, None
+        return {"y": from_val(env, v)}, None
     except StopIteration as s:
-        return {"r": s.value}, None
+        return {"r": from_val(env, s.value)}, None
     except BaseException as e:  # noqa  - an observation, never a harness crash
         return {"x": exc_name(env, e)}, e
 
@@ -240,18 +283,19 @@ def body(env, i, code):
                 if e is not None:
                     mode = ("prop", e, 0)
                 else:
-                    st["last"] = out.get("y", out.get("r"))
+                    lv = out.get("y", out.get("r"))
+                    st["last"] = to_val(env, lv) if (lv is None or isinstance(lv, int)) else lv
         except Exception as e:  # noqa  - eliot raised inside the body: it propagates like any exception
             mode = ("prop", e, 0)
             continue
         if op in ("yield", "yieldLast"):
-            v = ins[1] if op == "yield" else st["last"]
+            v = to_val(env, ins[1]) if op == "yield" else st["last"]
             try:
                 st["last"] = yield v
             except BaseException as e:  # noqa
                 mode = ("prop", e, 0)
         elif op == "ret":
-            return ins[1]
+            return to_val(env, ins[1])
         elif op == "catch":
             mode = ("skip", 0)
     if mode[0] == "prop":
@@ -273,6 +317,7 @@ def _run_real(case, wrapped):
 
     env = Env()
     env.E = [Thrown(n) for n in range(4)]
+    env.V = make_pool(env)
     env.ids, env.keep, env.obs, env.events, env.nested = {}, [], [], [], []
     env.pending_base = None
     env.st = [dict(acts=[], last=None) for _ in case["gens"]]
@@ -359,12 +404,10 @@ def oracle(ctx, case, plain, wrapped):
                 # a finished top-level generator: the lost value influences nothing downstream, keep comparing
                 continue
             break
-        comp = "output"
+        # classified by what the plain generator did at this point
         po, wo = (p or {}).get("out") or {}, (w or {}).get("out") or {}
-        if "x" in po or "x" in wo:
-            comp = "exception"
-        elif "y" in po or "y" in wo:
-            comp = "yielded-or-sent"
+        ref = po or wo
+        comp = "exception" if "x" in ref else "yielded-or-sent" if "y" in ref else "return-or-close" if "r" in ref else "output"
         ok = False
         ctx.violation("I/O trace of the decorated generator differs from the plain one at event %d: plain %s, wrapped %s" % (k, p, w),
                       c, key={"component": comp}, extra=dict(event=k, plain=p, wrapped=w))
@@ -461,12 +504,16 @@ FIXED_BODIES = [
     [["log", 1], ["enter", 11], ["try"], ["yield", 1], ["enter", 12], ["log", 2], ["yield", 2], ["exit"], ["catch", True], ["log", 3], ["yield", 3], ["endcatch"],
      ["log", 4], ["exit"], ["log", 5], ["yieldLast"]],
 ]
-ALPHABET = [["enter", 1], ["exit"], ["resume", 0, ["send", None]], ["resume", 0, ["send", 7]], ["resume", 0, ["throw", 0]], ["resume", 0, ["close"]]]
+ALPHABET = [["enter", 1], ["exit"], ["resume", 0, ["send", None]], ["resume", 0, ["send", 7]], ["resume", 0, ["send", 11]],
+            ["resume", 0, ["throw", 0]], ["resume", 0, ["close"]]]
 
 
 # minimal / hand-picked cases, run first (so that a replay file shows the smallest failing input)
 CORPUS = [
     dict(gens=[[["ret", 7]]], script=[["resume", 0, ["send", None]]], family="corpus"),
+    # an exception instance / class sent as plain data must arrive as the value of `yield`
+    dict(gens=[[["yield", 1], ["yieldLast"], ["yieldLast"], ["ret", 12]]],
+         script=[["resume", 0, ["send", None]], ["resume", 0, ["send", 11]], ["resume", 0, ["send", 12]], ["resume", 0, ["send", 10]]], family="corpus"),
     dict(gens=[[["enter", 11], ["log", 1], ["yield", 1], ["log", 2], ["exit"], ["log", 3]]],
          script=[["enter", 1], ["resume", 0, ["send", None]], ["exit"], ["enter", 2], ["resume", 0, ["send", 5]]], family="corpus"),
     dict(gens=[[["enter", 11], ["yield", 1], ["resume", 1, ["send", None]], ["log", 1], ["resume", 1, ["throw", 0]], ["log", 2]],
